@@ -678,6 +678,26 @@ pub mod gpos_split {
         pub salt: u32,
         /// out of 8: how many records carry a device where the format has one
         pub dev_density: u32,
+        /// PairPos1: the first glyphs (ascending); empty = the contiguous range G1.. (a single coverage range).
+        /// Runs with gaps give a format 2 coverage with many range records.
+        pub g1_list: Vec<u16>,
+    }
+
+    pub fn first_glyph(spec: &Spec, i: u16) -> u16 {
+        if spec.g1_list.is_empty() { G1 + i } else { spec.g1_list[i as usize] }
+    }
+    pub fn first_index(spec: &Spec, g: u16) -> u32 {
+        if spec.g1_list.is_empty() { g.wrapping_sub(G1) as u32 } else { spec.g1_list.binary_search(&g).map(|i| i as u32).unwrap_or(u32::MAX) }
+    }
+    /// glyph list of `n` glyphs with a gap (of 2 ids) before every index in `gaps_before`
+    pub fn glyphs_with_gaps(n: u16, gaps_before: &std::collections::BTreeSet<u16>) -> Vec<u16> {
+        let mut v = Vec::with_capacity(n as usize);
+        let mut shift = 0u16;
+        for i in 0..n {
+            if gaps_before.contains(&i) { shift += 2; }
+            v.push(G1 + i + shift);
+        }
+        v
     }
 
     fn h(spec: &Spec, a: u32, b: u32, c: u32) -> u32 {
@@ -739,7 +759,7 @@ pub mod gpos_split {
         use read_fonts::tables::layout::LookupFlag;
         match spec.kind {
             PP1 => {
-                let coverage = (0..spec.n1).map(|i| GlyphId16::new(G1 + i)).collect();
+                let coverage = (0..spec.n1).map(|i| GlyphId16::new(first_glyph(spec, i))).collect();
                 let pair_sets = (0..spec.n1).map(|a| {
                     wg::PairSet::new((0..spec.n2).map(|b| {
                         wg::PairValueRecord::new(GlyphId16::new(G2 + b),
@@ -873,7 +893,7 @@ pub mod gpos_split {
                     let sets = sub.pair_sets();
                     if cov.iter().count() != sub.pair_set_count() as usize { return Err(e("coverage", "coverage count != pair set count".into())); }
                     for (i, g1) in cov.iter().enumerate() {
-                        let a = g1.to_u16().wrapping_sub(G1) as u32;
+                        let a = first_index(spec, g1.to_u16());
                         let set = sets.get(i).map_err(|x| e("read", format!("pair set {i}: {x}")))?;
                         for rec in set.pair_value_records().iter() {
                             let rec = rec.map_err(|x| e("read", format!("pair value record: {x}")))?;
@@ -971,6 +991,19 @@ pub mod gpos_split {
         }
     }
 
+    /// number of first glyphs in each PairPos1 piece of a compiled lookup list (for the two-pass run alignment)
+    pub fn pp1_piece_sizes(out: &[u8], lookups_off: usize) -> Option<Vec<usize>> {
+        let list = rg::PositionLookupList::read(FontData::new(out.get(lookups_off..)?)).ok()?;
+        let lookup = list.lookups().get(0).ok()?;
+        let rg::PositionSubtables::Pair(subs) = lookup.subtables().ok()? else { return None };
+        let mut v = vec![];
+        for sub in subs.iter() {
+            let rg::PairPos::Format1(sub) = sub.ok()? else { return None };
+            v.push(sub.pair_set_count() as usize);
+        }
+        Some(v)
+    }
+
     #[derive(Debug)]
     pub enum Res { Ok(usize), Err, Fail(String, String) }
 
@@ -1001,7 +1034,7 @@ pub mod gpos_split {
             PP2 => { let n2 = 20 + rng.below(90) as usize; ((target / (n2 * rec_len.max(2))).clamp(4, 1500), n2) }
             _ => { let n2 = 4 + rng.below(8) as usize; ((target / (n2 * 8)).clamp(100, 3000), n2) }
         };
-        Spec { kind, fmt1, fmt2, n1: n1 as u16, n2: n2 as u16, salt: rng.next_u32(), dev_density: *rng.pick(&[0u32, 1, 4, 7, 8]) }
+        Spec { kind, fmt1, fmt2, n1: n1 as u16, n2: n2 as u16, salt: rng.next_u32(), dev_density: *rng.pick(&[0u32, 1, 4, 7, 8]), g1_list: vec![] }
     }
 
     /// boundary-seeking sweep: find where the sibling blob's size makes packing stop to fit, then probe densely
@@ -1020,7 +1053,7 @@ pub mod gpos_split {
                     let target = 68_000 + rng.below(20_000) as usize;
                     let (n1, n2) = if kind == PP1 { let n2 = 3 + rng.below(4) as usize; (target / (n2 * (2 + rec_len) + 4), n2) }
                                    else { let n2 = 20 + rng.below(60) as usize; (target / (n2 * rec_len.max(2)), n2) };
-                    let spec = Spec { kind, fmt1, fmt2, n1: n1.clamp(4, 4000) as u16, n2: n2 as u16, salt: rng.next_u32(), dev_density: *rng.pick(&[1u32, 4, 7]) };
+                    let spec = Spec { kind, fmt1, fmt2, n1: n1.clamp(4, 4000) as u16, n2: n2 as u16, salt: rng.next_u32(), dev_density: *rng.pick(&[1u32, 4, 7]), g1_list: vec![] };
                     let lookup = build_lookup(&spec);
                     let blobs = vec![(rng.chance(1, 2), 5u8, *rng.pick(&[8usize, 1000, 20_000]))];
                     let r = run_one(&spec, &lookup, &blobs);
@@ -1053,7 +1086,7 @@ pub mod gpos_split {
                     PP2 => { let n2 = 30 + rng.below(60) as usize; ((target * 6 / 10 / (n2 * rec_len.max(2))).clamp(4, 4000), n2) }
                     _ => { let n2 = 10 + rng.below(7) as usize; ((target / (n2 * 8)).clamp(100, 4000), n2) }
                 };
-                let spec = Spec { kind, fmt1, fmt2, n1: n1 as u16, n2: n2 as u16, salt: rng.next_u32(), dev_density: *rng.pick(&[4u32, 7, 8]) };
+                let spec = Spec { kind, fmt1, fmt2, n1: n1 as u16, n2: n2 as u16, salt: rng.next_u32(), dev_density: *rng.pick(&[4u32, 7, 8]), g1_list: vec![] };
                 let lookup = build_lookup(&spec);
                 let blobs = vec![(rng.chance(1, 2), 6u8, *rng.pick(&[8usize, 500]))];
                 let r = run_one(&spec, &lookup, &blobs);
@@ -1065,6 +1098,82 @@ pub mod gpos_split {
                 }
                 cx.st.nontrivial(&format!("{:?}", spec));
             }
+        }
+        // (1c) one table carrying >= 65536 non-null 16-bit offsets (offset-record indices beyond u16), split and read back in full
+        for shape in 0..3u32 {
+            let spec = match shape {
+                0 => Spec { kind: MARKBASE, fmt1: 0, fmt2: 0, n1: 300 + rng.below(8) as u16, n2: 220 + rng.below(6) as u16, salt: rng.next_u32(), dev_density: 0, g1_list: vec![] },
+                1 => Spec { kind: MARKBASE, fmt1: 0, fmt2: 0, n1: 258 + rng.below(8) as u16, n2: 256, salt: rng.next_u32(), dev_density: 0, g1_list: vec![] },
+                _ => { let dev = *rng.pick(&[0x30u16, 0xC0, 0x50, 0xA0]);
+                       Spec { kind: PP2, fmt1: 0x4 | dev, fmt2: 0, n1: 300 + rng.below(20) as u16, n2: 112 + rng.below(10) as u16, salt: rng.next_u32(), dev_density: 8, g1_list: vec![] } }
+            };
+            let lookup = build_lookup(&spec);
+            let r = run_one(&spec, &lookup, &[(rng.chance(1, 2), 6u8, 8usize)]);
+            let kindname = if spec.kind == PP2 { "pairpos2" } else { "markbase" };
+            cx.st.evaluations += 1;
+            cx.st.count(&format!("gpos.offsets65536.{kindname}.{}", match &r { Res::Ok(n) => format!("ok_{n}_pieces"), Res::Err => "packing_failed".into(), Res::Fail(..) => "FAIL".into() }));
+            if let Res::Fail(class, detail) = &r {
+                cx.st.oracle_failure(json!({"key": format!("gpos:{kindname}:{class}"), "spec": format!("kind {} n1 {} n2 {} fmt1 {}", spec.kind, spec.n1, spec.n2, spec.fmt1), "why": detail}));
+            }
+            cx.st.nontrivial(&format!("big {} {} {}", spec.kind, spec.n1, spec.n2));
+        }
+        // (1d) PairPos1 whose first glyphs are RUNS with gaps (format 2 coverage, many range records).
+        //      pass A: runs of length 1,2,3,.. at several phases; pass B (two-pass): learn the split points from the contiguous
+        //      compilation, then put run starts / run ends / one-glyph runs exactly at the split points and next to them.
+        for rep in 0..(n_specs.min(12) / 2).max(3) {
+            let n2 = 3 + rng.below(5) as usize;
+            let fmt1 = *rng.pick(&[0x4u16, 0x5, 0xF]);
+            let fmt2 = *rng.pick(&[0u16, 0x4]);
+            let rec_len = 2 * (fmt1.count_ones() + fmt2.count_ones()) as usize;
+            let target = 90_000 + rng.below(120_000) as usize;
+            let n1 = (target / (n2 * (2 + rec_len) + 4)).clamp(50, 9000) as u16;
+            let base = Spec { kind: PP1, fmt1, fmt2, n1, n2: n2 as u16, salt: rng.next_u32(), dev_density: 0, g1_list: vec![] };
+            let mut gap_sets: Vec<std::collections::BTreeSet<u16>> = vec![];
+            // pass A: cyclic run lengths 1..=k starting at a phase
+            let k = 1 + rng.below(5) as u16;
+            let mut set = std::collections::BTreeSet::new();
+            let (mut i, mut len) = ((rep as u16) % (k + 1), 1u16);
+            while i < n1 { set.insert(i); i += len; len = if len >= k { 1 } else { len + 1 }; }
+            gap_sets.push(set);
+            // pass B: split points of the contiguous version
+            let lookup0 = build_lookup(&base);
+            let root0 = GRoot { lookups: wl::LookupList::new(vec![lookup0]), blobs: vec![] };
+            if let Ok(Ok(bytes)) = catch(std::panic::AssertUnwindSafe(|| dump_table(&root0))) {
+                let off = u16::from_be_bytes([bytes[0], bytes[1]]) as usize;
+                if let Some(sizes) = pp1_piece_sizes(&bytes, off) {
+                    let mut cuts = vec![];
+                    let mut acc = 0usize;
+                    for sz in &sizes[..sizes.len().saturating_sub(1)] { acc += sz; cuts.push(acc as u16); }
+                    for variant in 0..4u16 {
+                        let mut set = std::collections::BTreeSet::new();
+                        for c in &cuts {
+                            for d in [-2i32, -1, 0, 1, 2] {
+                                // which boundaries around the cut get a gap, by variant
+                                let put = match variant { 0 => d == 0, 1 => d == 0 || d == 1, 2 => d == 1 || d == -1, _ => d != 2 };
+                                let idx = *c as i32 + d;
+                                if put && idx > 0 && (idx as u16) < n1 { set.insert(idx as u16); }
+                            }
+                        }
+                        // plus sparse background runs
+                        let mut j = 7 + variant;
+                        while j < n1 { set.insert(j); j += 11 + variant; }
+                        gap_sets.push(set);
+                    }
+                    cx.st.count("gpos.runs.two_pass_specs");
+                }
+            }
+            for set in gap_sets {
+                let mut spec = base.clone();
+                spec.g1_list = glyphs_with_gaps(n1, &set);
+                let lookup = build_lookup(&spec);
+                let r = run_one(&spec, &lookup, &[]);
+                cx.st.evaluations += 1;
+                cx.st.count(&format!("gpos.runs.pairpos1.{}", match &r { Res::Ok(n) if *n > 1 => "ok_split", Res::Ok(_) => "ok_unsplit", Res::Err => "packing_failed", Res::Fail(..) => "FAIL" }));
+                if let Res::Fail(class, detail) = &r {
+                    cx.st.oracle_failure(json!({"key": format!("gpos:pairpos1:{class}"), "spec": format!("n1 {} n2 {} fmt1 {} fmt2 {} gaps_before {:?}", spec.n1, spec.n2, fmt1, fmt2, set.iter().take(40).collect::<Vec<_>>()), "why": detail}));
+                }
+            }
+            cx.st.nontrivial(&format!("runs {:?} {}", base.salt, rep));
         }
         // (2) boundary-seeking sweeps
         for _ in 0..n_specs {
